@@ -223,6 +223,20 @@ func genHistory(r *Rng, p HistProfile, feat Feat, exec func(Op) OpResult) []Op {
 			if p.PostingsHeavy && r.Chance(60) {
 				np = 1 + r.Intn(20)
 			}
+			if p.PostingsHeavy && r.Chance(20) {
+				// look-alike (asset, amount) pairs: "USD/2"+"10" and "USD/21"+"0" print the same when concatenated, etc.
+				pairs := [][2]Posting{
+					{{"world", "alice", "USD/2", big.NewInt(10)}, {"world", "bob", "USD/21", big.NewInt(0)}},
+					{{"world", "alice", "USD1", big.NewInt(23)}, {"world", "bob", "USD12", big.NewInt(3)}},
+					{{"world", "alice", "EUR", big.NewInt(11)}, {"world", "bob", "EUR", big.NewInt(1)}},
+					{{"world", "alice", "COIN", big.NewInt(120)}, {"world", "bob", "COIN1", big.NewInt(20)}},
+				}
+				pr := Pick(r, pairs)
+				if r.Bool() {
+					pr[0], pr[1] = pr[1], pr[0]
+				}
+				o.Post = append(o.Post, pr[0], pr[1])
+			}
 			for j := 0; j < np; j++ {
 				if p.PostingsHeavy && np > 3 {
 					accs := genAccounts[:4]
